@@ -28,11 +28,10 @@ theorem readData_agree (h : BoxHeader) (L L' : Nat) (hle : L ≤ L') :
     simp only [h1, h2, if_true]; exact AgreeUnless.refl _ _
   · simp only [h1, if_false]; exact .stop _
 
-theorem scanBox_agree (cfg : Config) (L L' : Nat) (hle : L ≤ L') (st : ScanState) :
-    AgreeUnless .invalidInput (scanBox { cfg with maxMetadataSize := L } st) (scanBox { cfg with maxMetadataSize := L' } st) := by
-  unfold scanBox
-  apply AgreeUnless.position; intro startPos
-  apply AgreeUnless.bind (AgreeUnless.refl _ _); intro header
+theorem scanBody_agree (cfg : Config) (L L' : Nat) (hle : L ≤ L') (st : ScanState) (startPos : Nat) (header : BoxHeader) :
+    AgreeUnless .invalidInput (scanBody { cfg with maxMetadataSize := L } st startPos header)
+      (scanBody { cfg with maxMetadataSize := L' } st startPos header) := by
+  unfold scanBody
   dsimp only
   apply agree_ite; · intro _; exact AgreeUnless.refl _ _
   intro _
@@ -48,6 +47,12 @@ theorem scanBox_agree (cfg : Config) (L L' : Nat) (hle : L ≤ L') (st : ScanSta
     intro payload; exact AgreeUnless.refl _ _
   intro _
   exact AgreeUnless.refl _ _
+
+theorem scanBox_agree (cfg : Config) (L L' : Nat) (hle : L ≤ L') (st : ScanState) :
+    AgreeUnless .invalidInput (scanBox { cfg with maxMetadataSize := L } st) (scanBox { cfg with maxMetadataSize := L' } st) := by
+  unfold scanBox
+  apply AgreeUnless.position; intro startPos
+  exact AgreeUnless.bind (AgreeUnless.refl _ _) (fun header => scanBody_agree cfg L L' hle st startPos header)
 
 theorem scan_agree (cfg : Config) (L L' : Nat) (hle : L ≤ L') (fuel : Nat) (st : ScanState) :
     AgreeUnless .invalidInput (scan { cfg with maxMetadataSize := L } fuel st) (scan { cfg with maxMetadataSize := L' } fuel st) := by
